@@ -7,24 +7,27 @@
 
 PROPS = {
     'C01': {
-        'units': ['engine', 'engine_build', 'depids'],
+        'units': ['engine', 'engine_build', 'depids', 'engine_loop'],
         'design_ref': 'DESIGN.md section 4, C01 and appendix A (lemma L1)',
         'claim': 'the step contracts of lemma L1 on the real engine functions: scanRule decides never-built / signature / validity in that order and '
                  'declares a rule up to date without a scan only if nothing is recorded; demandRule stamps builtAt with the current epoch exactly '
                  'when a rule is brought up to date and clears the recorded dependencies exactly when a task is created; taskIsComplete moves '
-                 'computedAt to the current epoch exactly when the value changed or a change is forced; isComplete means complete in the current epoch',
+                 'computedAt to the current epoch exactly when the value changed or a change is forced; isComplete means complete in the current epoch; '
+                 'the engine loop records, for every request a task makes, the input\'s key with the request\'s flags as a dependency of the REQUESTING rule, appended in '
+                 'request order exactly once; on completion the discovered dependencies are appended in order, each is demanded in this build, and the completed '
+                 'record (complete in this epoch, all dependencies in) is what is handed to the database',
         'not_decided': ['the induction over builds and scan order (lemma L1, paper)', 'the engine loop executeTasks (dependency recording, provideValue)',
                         'client Rule/Task code (assumed deterministic, as the property does)'],
     },
     'C02': {
-        'units': ['engine', 'sqlite'],
+        'units': ['engine', 'sqlite', 'engine_loop'],
         'design_ref': 'DESIGN.md section 4, C02',
         'claim': 'every reason reported to the delegate is true of the rule record at the moment of the report (precondition of the delegate stub at '
                  'every call site under contract); a task is created only from NeedsToRun and the rule leaves that state; an unchanged value keeps computedAt',
         'not_decided': ['the shadow-epoch history argument of the property (every step of it is proved, the induction is lemma L1)', 'breakCycle (Forced)'],
     },
     'C03': {
-        'units': ['sqlite', 'sqlite_open', 'engine_build', 'depids'],
+        'units': ['sqlite', 'sqlite_open', 'engine_build', 'depids', 'engine_loop'],
         'design_ref': 'DESIGN.md section 4, C03',
         'claim': 'lookupRuleResult reads every field of a stored result from the column the SELECT text names for it (both the fast and the join path; '
                  'the column order is parsed from the SQL literals on every run), decodes the dependency blob word by word into (key of id, order-only, '
@@ -50,7 +53,7 @@ PROPS = {
                         'setRuleResult / key table contents (U-db units)', 'that continued builds return clean results (lemma L1)'],
     },
     'C05': {
-        'units': ['engine', 'engine_build', 'engine_cancel', 'serialqueue', 'lanequeue'],
+        'units': ['engine', 'engine_build', 'engine_cancel', 'serialqueue', 'lanequeue', 'engine_loop'],
         'design_ref': 'DESIGN.md section 4, C05',
         'claim': 'build() returns the empty value whenever the task loop failed, the build was already cancelled or the database could not be locked; '
                  'the execution queue is released under its mutex on every path, the engine is never left busy, resetForBuild clears the flag under '
@@ -63,15 +66,19 @@ PROPS = {
                         'the BuildSystemFrontend / lane queue path'],
     },
     'C06': {
-        'units': ['engine', 'engine_build', 'engine_cancel', 'engine_pool'],
+        'units': ['engine', 'engine_build', 'engine_cancel', 'engine_pool', 'engine_loop'],
         'design_ref': 'DESIGN.md section 4, C06',
         'claim': 'task protocol automaton on the Task stubs (start once, prior value once after start and only for the same rule definition), ready queue '
                  'receives a task exactly when its wait count reaches zero, finished tasks are queued under finishedTaskInfosMutex and the loop is notified '
                  'afterwards, parked scan/input requests are all woken, lock discipline of taskInfos; the blocking step of the engine loop and the '
                  'cancellation drain wait only with the mutex held and the finished queue observed empty under it, and the loop iterates again after '
-                 'blocking; a recycled scan record is empty (free list invariant of newRuleScanRecord/freeRuleScanRecord)',
+                 'blocking; a recycled scan record is empty (free list invariant of newRuleScanRecord/freeRuleScanRecord); the phases of executeTasks, each '
+                 'loop body as one step: requests are taken first in first out; a request whose input is still being scanned is parked unchanged; a value request '
+                 'is delivered exactly once (provideValue with the request\'s id, the input\'s key and current value, before inputs-available, only when the input is '
+                 'complete in this build or its prior value was asked for), a must-follow request never; inputs-available is delivered once, to the front of the '
+                 'ready queue, with nothing outstanding; a finished task wakes every waiter in order and leaves the task table under its mutex',
         'not_decided': ['that all completion orders give the same values (a whole-build, all-schedules statement)', 'data-race freedom in general, deadlock',
-                        'the other phases of executeTasks (input requests, finished inputs, ready, finished tasks, cycle resolution)'],
+                        'the scan-request phase of executeTasks as a loop (its step is proved in unit engine); composition of the steps over a whole build'],
     },
     'C07': {
         'units': ['engine_cycle', 'engine_cancel'],
@@ -113,7 +120,7 @@ PROPS = {
                         'chained without delimiters (candidate finding F9, ExternalCommand::getSignature is not under contract)', 'the null-build claim end to end'],
     },
     'C11': {
-        'units': ['mkdeps', 'depinfo', 'shelldeps'],
+        'units': ['mkdeps', 'depinfo', 'shelldeps', 'engine_loop'],
         'design_ref': 'DESIGN.md section 4, C11',
         'claim': 'Makefile-deps lexer/parser: consumed/produced byte accounting of lexWord, every reported word is a '
                  'non-empty span of the buffer, rule start/end pairing also on error paths, isWordChar table; the shell command\'s depfile callbacks record '
